@@ -23,6 +23,15 @@ CLAIMED = {
              "All inputs are covered at once because the rule is about the code on every path; accuracy of the located peak is not decided.",
         technique="abstract interpretation over ast (units-of-measure + coordinate-frame domains), def-use and call-graph routing rules",
         ref="5 C01"),
+    "C02": dict(
+        text="Symbolic evaluation (affine normal forms with int/floor atoms) of the crop-window arithmetic proves, for every axis, "
+             "centre, box size and spline order: new_center = center - x0, window length = box + 2*order + 1, margins, the padding identity "
+             "slice.start - pad = z0 on each of the non-raising paths of make_slice_and_pad, that those paths never yield an empty slice and "
+             "that the error is raised only without overlap (Farkas-style prover over path conditions, small-integer witnesses for refutations); "
+             "a symbolic 4x4 matrix product proves compose_matrices = T(c) R T(-oc); frame/unit typing covers what the loader passes. "
+             "Interpolated values are not decided.",
+        technique="abstract interpretation over ast: affine-form domain with path conditions and inequality prover, symbolic matrix product, frame and unit typing, who-may-catch rule",
+        ref="5 C02"),
 }
 
 NOT_APPLICABLE = {
